@@ -4,12 +4,12 @@ CONSTANTS
   RULE = "precise"
   REPAIR = FALSE
   NApps = 2
-  MaxRoutes = 2
+  MaxRoutes = 1
   MaxDepth = 1
-  MSETS = "one"
+  MSETS = "small"
   PSIB = FALSE
   NPOL = 1
-  RICHPOL = TRUE
+  RICHPOL = FALSE
   RICHREQ = FALSE
 INVARIANT Emit
 CHECK_DEADLOCK FALSE
